@@ -267,6 +267,16 @@ def caller_rules(repo, rep):
             check_equal(rep, 'R-WIRE', base + 'lat', wn, bound.get(ps[2]), Rat.sym('lat'), 'latitude argument is the input latitude in degrees')
             check_equal(rep, 'R-WIRE', base + 'lon', wn, bound.get(ps[3]), Rat.sym('lon'), 'longitude argument is the input longitude in degrees')
             slots = (4, 5)
+            # the central meridian handed to the helper is that of the zone for the projection of the call (any zone width, any first central meridian)
+            if isinstance(val, Tup) and len(val.items) > 1 and isinstance(bound.get(ps[4]), Rat):
+                for sub, verdict, msg, exp, act in common.zone_midpoint_check(val.items[1], bound.get(ps[4]), P):
+                    k_ = base + 'cm::' + sub
+                    if verdict == 'holds':
+                        rep.holds('R-WIRE', k_, wn, msg)
+                    elif verdict == 'violated':
+                        rep.violated('R-WIRE', k_, wn, msg, expected=exp, actual=act)
+                    else:
+                        rep.undecided('R-WIRE', k_, wn, msg)
         else:
             lat_arg = bound.get(ps[2])
             a = _single_atom(lat_arg * alg.pi() / C(180)) if isinstance(lat_arg, Rat) else None
